@@ -4,7 +4,7 @@ import math
 from ..common import b2f, f2b
 from ..gen import gen_tree, infosets_of, tree_stats
 from ..ops import CaseBuilder
-from ..solvers import level_tree, PRESETS, blind_guess_tree
+from ..solvers import level_tree, PRESETS, blind_guess_tree, tiny_unit
 from .. import oracle
 
 SCOPE = {"solve", "named", "info"}
@@ -73,7 +73,10 @@ def generate(rng, tier, n):
             continue
         preset = rng.choice(PRESETS)
         threads = rng.choice([1, 4])
-        cb = CaseBuilder(cid, t, {"stats": st, "preset": preset, "threads": threads})
+        unit = None
+        if rng.random() < 0.15:
+            t, unit = tiny_unit(rng, t)
+        cb = CaseBuilder(cid, t, {"stats": st, "preset": preset, "threads": threads, "unit": unit})
         cb.meta["runs"] = []
         for T in (BUDGETS if tier == "thorough" else rng.sample(BUDGETS[:6], 3) + rng.sample(BUDGETS[6:], 1)):
             long_ = T > 100     # rounding is amplified over long runs: the model is compared up to T = 100 only
@@ -110,7 +113,7 @@ def monitor(cb, impl):
         reg = b2f(info["ok"][3])
         env_b = 2 * D * N * math.sqrt(A) / math.sqrt(T)
         env_r = 6 * D * N * (math.sqrt(A) + 1 / math.sqrt(T)) / math.sqrt(T)
-        slack = 1e-9 * max(1.0, D)
+        slack = 1e-9 * D      # the envelopes are homogeneous in the payoff unit
         for nm, x in (("one", b1), ("two", b2)):
             if not (x <= env_b + slack):
                 hits.append(("%s, T=%d, %d threads: player %s bound %r exceeds 2*D*N*sqrt(A)/sqrt(T) = %r (D=%r N=%d A=%d)"
